@@ -109,7 +109,7 @@ func FamilyPtrs(thorough bool) []*Conv {
 					// a method-level setting is not inherited by generated sub-methods (documented), so it is
 					// used only where the mismatch stays inside the method's own frame
 					lvl := fi % 3
-					if lvl == 1 && b.name == "struct" && pos != "top" {
+					if lvl == 1 && b.name == "struct" && (pos != "top" || sd >= 2) {
 						lvl = 0
 					}
 					if s.NeedZero {
